@@ -352,6 +352,8 @@ class Backtest(object):
 
         # merge and keep minimum
         min_outlay = pd.DataFrame({"pos": outlaysp, "neg": outlaysn}).min(axis=1)
+        # no security was ever created: nothing was bought or sold
+        min_outlay = min_outlay.reindex(s.values.index).fillna(0.0)
 
         # turnover is defined as min outlay / nav
         mrg = pd.DataFrame({"outlay": min_outlay, "nav": s.values})
